@@ -9,6 +9,7 @@ use std::panic::{catch_unwind, AssertUnwindSafe};
 mod vj;
 mod apis;
 mod apis2;
+mod apis3;
 
 fn main() {
     std::panic::set_hook(Box::new(|_| {}));
